@@ -44,6 +44,10 @@ namespace rkcommon {
           }
         };
 
+        // enkiTS takes an unsigned set size: a negative count must not wrap
+        if (nTasks <= 0)
+          return;
+
         LocalTask task(nTasks, std::forward<TASK_T>(fcn));
         scheduleTaskInternal(&task);
         waitInternal(&task);
